@@ -168,7 +168,7 @@ Definition parse_colon (s : string) : option printed :=
   end.
 
 (* ------------------------------------------------------------------ clause checkers *)
-Definition tol_deg : Q := 1 # 1000000000.        (* 1e-9 degree *)
+Definition tol_deg : Q := 1 # 1000000000.        (* 1e-9 degree: the property's tolerance for the tuple recombination *)
 
 (* the clauses of the property for one printed string, one boolean each *)
 Definition sec_value (p : printed) : Q := (inject_Z p.(p_smant) * Qpow10 p.(p_sexp))%Q.
@@ -200,12 +200,21 @@ Definition read_back (p : printed) : Q :=
   let v := (inject_Z (p.(p_d) * 3600 + p.(p_m) * 60) + sec_value p)%Q in
   if p.(p_dneg) || p.(p_mneg) || p.(p_sneg) then (- v)%Q else v.
 
-(* read-back: within half a unit of the requested decimal (+ 1e-9 degree) of the value, modulo a turn *)
+(* the binary64 resolution of the value expressed in seconds: one ulp of the double |x| * k *)
+Definition ulp_of (y : float) : Q := Q_of_float (next_up y - y)%float.
+Definition readback_ulps : Q := 4 # 1.
+Definition underflow_floor : Q := Qpow10 (-300).
+
+(* read-back: within half a unit of the requested decimal of the value, modulo a turn; on top of that
+   half unit only 4 ulps of |x|*3600 (|x|*240 for RA seconds) are allowed, + 1e-300 s for the
+   underflow of x/15 on denormals *)
 Definition chk_readback (x : float) (ra : bool) (nd : Z) (p : printed) : bool :=
   let k := if ra then (240 # 1)%Q else (3600 # 1)%Q in       (* seconds per degree *)
+  let kf := if ra then 240%float else 3600%float in
   let turn := inject_Z ((if ra then 24 else 360) * 3600) in
   let step := if nd <? 0 then 0%Q else (Qpow10 (- nd) * (1 # 2))%Q in
-  Qle_bool (Qdist_mod (read_back p - Q_of_float x * k) turn) (step + tol_deg * k).
+  let tol := (readback_ulps * ulp_of (abs x * kf)%float + underflow_floor)%Q in
+  Qle_bool (Qdist_mod (read_back p - Q_of_float x * k) turn) (step + tol).
 
 Definition chk_printed (x : float) (ra : bool) (nd : Z) (p : printed) : bool :=
   chk_no60 p && chk_lead ra p && chk_sign x p && chk_decimals nd p && chk_readback x ra nd p.
